@@ -2,6 +2,8 @@
 """Mutant generator + survivor filter for the crate at /repo (never touches /repo's working tree).
 
 usage:
+  (every command: --rev <commit> takes the sources from that commit of /repo - and makes the scratch worktrees at it -
+   instead of the working tree / HEAD; the recorded campaign was run on c1399e4)
   mutate.py list   [--files vm,compile,...] [--limit N] [--first N]          print the mutants (one line each)
   mutate.py diff   <id> [--files ...]                                       print one mutant's unified diff
   mutate.py filter [--files ...] [--limit N] [--first N] [--workers K] [--wt-base /tmp/mut]
@@ -180,9 +182,17 @@ def line_mutations(line, mline):
     return out
 
 
+REV = None       # --rev <commit>: read the sources from that commit of /repo instead of its working tree
+
+
+def read_src(relpath):
+    if REV:
+        return subprocess.run(['git', '-C', REPO, 'show', '%s:%s' % (REV, relpath)], check=True, capture_output=True, text=True).stdout
+    return open(os.path.join(REPO, relpath)).read()
+
+
 def file_mutants(fname):
-    path = os.path.join(REPO, 'src', fname + '.rs')
-    src = open(path).read()
+    src = read_src('src/%s.rs' % fname)
     mask = code_mask(src)
     msrc = ''.join(c if (m or c == '\n') else ' ' for c, m in zip(src, mask))
     lines = src.split('\n')
@@ -204,7 +214,7 @@ def file_mutants(fname):
 
 def make_diff(m, lines=None):
     if lines is None:
-        lines = open(os.path.join(REPO, m['file'])).read().split('\n')
+        lines = read_src(m['file']).split('\n')
     new = list(lines)
     assert new[m['line'] - 1] == m['original'], m
     new[m['line'] - 1] = m['mutated']
@@ -266,7 +276,7 @@ class Worker:
     def setup(self):
         subprocess.run(['git', '-C', REPO, 'worktree', 'remove', '--force', self.wt], capture_output=True)
         shutil.rmtree(self.wt, ignore_errors=True)
-        subprocess.run(['git', '-C', REPO, 'worktree', 'add', '--detach', self.wt, 'HEAD', '-q'], check=True)
+        subprocess.run(['git', '-C', REPO, 'worktree', 'add', '--detach', self.wt, REV or 'HEAD', '-q'], check=True)
         shutil.copyfile(os.path.join(REPO, 'Cargo.lock'), os.path.join(self.wt, 'Cargo.lock'))
         rc, out = run_to(['cargo', 'build', '--offline'], self.wt, 1800, self.env)
         assert rc == 0, out[-2000:]
@@ -340,7 +350,7 @@ def cmd_filter(muts, total, a):
             if m is None:
                 return
             if m['file'] not in files_lines:
-                files_lines[m['file']] = open(os.path.join(REPO, m['file'])).read().split('\n')
+                files_lines[m['file']] = read_src(m['file']).split('\n')
             diff = make_diff(m, files_lines[m['file']])
             try:
                 r = w.evaluate(m, diff, test_timeout)
@@ -406,6 +416,8 @@ def main():
                 a[k] = rest[i + 1]; i += 2
         else:
             pos.append(rest[i]); i += 1
+    global REV
+    REV = a.get('rev')
     files = a['files'].split(',') if 'files' in a else ALL_FILES
     files = [f[:-3] if f.endswith('.rs') else f for f in files]
     limit = int(a['limit']) if 'limit' in a else None
